@@ -32,3 +32,11 @@ def run(ctx):
     else:
         ctx.fail("trace-rejected:Trace_Range", {"kind": "trace", "trace": trace, "info": v["info"],
                                                 "tlc_output": v["out"]})
+    # unbounded complement (Apalache): the shape of the range -- start <= end, inner.len() = height * width, the
+    # written index inside inner -- is an inductive invariant of set_value's three arms for coordinates of any size
+    ctx.rules.append("RangeShapeInd (Apalache, symbolic coordinates): Init => IndInv and IndInv /\\ SetValue => IndInv' "
+                     "(shape and in-bounds write of Range::set_value for every rectangle and position)")
+    for args in (["--init=Init", "--inv=IndInv", "--length=0"], ["--init=IndInit", "--inv=IndInv", "--length=1"]):
+        ok, out = ctx.apalache("range", "RangeShapeInd", args)
+        if ok is False:
+            ctx.fail("spec:RangeShapeInd:" + args[0], {"kind": "apalache", "module": "RangeShapeInd", "args": args, "output": out})
